@@ -271,6 +271,11 @@ impl BitPackedInts {
 /// Stores the first value, then packs the differences between consecutive values.
 /// For sequential IDs like [1000, 1001, 1002, ...], deltas are all 1, needing just
 /// 1 bit each - that's up to 64x compression!
+///
+/// A non-empty sequence always records a delta width of at least 1 bit, even when
+/// it has no deltas. The empty sequence is the one with base 0, no deltas and
+/// width 0, so a single `0` and the empty sequence stay distinct (also in the
+/// byte format, whose layout is unchanged).
 #[derive(Debug, Clone)]
 pub struct DeltaBitPacked {
     /// Base value (first value in sequence).
@@ -296,7 +301,12 @@ impl DeltaBitPacked {
             .map(|w| w[1].saturating_sub(w[0]))
             .collect();
 
-        let deltas = BitPackedInts::pack(&delta_values);
+        // A single value has no deltas: width 1 marks the sequence as non-empty.
+        let deltas = if delta_values.is_empty() {
+            BitPackedInts::pack_with_bits(&[], 1)
+        } else {
+            BitPackedInts::pack(&delta_values)
+        };
 
         Self { base, deltas }
     }
@@ -304,7 +314,7 @@ impl DeltaBitPacked {
     /// Decodes back to the original values.
     #[must_use]
     pub fn decode(&self) -> Vec<u64> {
-        if self.deltas.is_empty() && self.base == 0 {
+        if self.is_empty() {
             return Vec::new();
         }
 
@@ -324,7 +334,7 @@ impl DeltaBitPacked {
     /// Returns the number of values.
     #[must_use]
     pub fn len(&self) -> usize {
-        if self.deltas.is_empty() && self.base == 0 {
+        if self.is_empty() {
             0
         } else {
             self.deltas.len() + 1
@@ -334,7 +344,7 @@ impl DeltaBitPacked {
     /// Returns whether the encoding is empty.
     #[must_use]
     pub fn is_empty(&self) -> bool {
-        self.deltas.is_empty() && self.base == 0
+        self.deltas.is_empty() && self.base == 0 && self.deltas.bits_per_value() == 0
     }
 
     /// Returns the base value.
@@ -505,6 +515,27 @@ mod tests {
         let encoded = DeltaBitPacked::encode(&values);
         assert_eq!(encoded.len(), 1);
         assert_eq!(encoded.decode(), values);
+    }
+
+    #[test]
+    fn test_delta_bitpacked_single_zero() {
+        let values = vec![0u64];
+        let encoded = DeltaBitPacked::encode(&values);
+        assert!(!encoded.is_empty());
+        assert_eq!(encoded.len(), 1);
+        assert_eq!(encoded.decode(), values);
+
+        let restored = DeltaBitPacked::from_bytes(&encoded.to_bytes()).unwrap();
+        assert_eq!(restored.len(), 1);
+        assert_eq!(restored.decode(), values);
+
+        let empty = DeltaBitPacked::from_bytes(&DeltaBitPacked::encode(&[]).to_bytes()).unwrap();
+        assert!(empty.is_empty());
+
+        // A single non-zero value written without the width marker still reads back.
+        let mut old_format = 42u64.to_le_bytes().to_vec();
+        old_format.extend_from_slice(&[0, 0, 0, 0, 0]);
+        assert_eq!(DeltaBitPacked::from_bytes(&old_format).unwrap().decode(), vec![42]);
     }
 
     #[test]
